@@ -218,57 +218,59 @@ extern "C" void h_cmp() {
 }
 
 // ---------------------------------------------------------------- ^
-// exact power by repeated multiplication; base magnitude < 2^PB (PB structural bits), exponent magnitude <= PE_MAX
+// integral base b (any kind, |b| < 2^PB, structural bits) and a CONCRETE integral exponent PE (any kind that can hold it).
+// reference: |b|^|PE| by repeated multiplication in 64 bits, sign = (b < 0 and PE odd), reciprocal for PE < 0.
+// PB <= 4 and |PE| <= 15: the power is below 2^63, so the wrap-around product IS the exact value.
+// PB = 64 (|PE| <= 3): the claim is "payload == low word of the exact power" for all bases (exact whenever it fits).
 #ifndef PB
 #define PB 4
 #endif
-#ifndef PE_MAX
-#define PE_MAX 15
+#ifndef PE
+#define PE 2
 #endif
-#ifndef PE_FIX
-#define PE_FIX (-1)
+#if PB >= 64
+#define PB_MASK 0xFFFFFFFFFFFFFFFFULL
+#else
+#define PB_MASK ((1ULL << PB) - 1ULL)
 #endif
-static i128 ref_pow(i128 base, unsigned e) { i128 v = 1; unsigned i = 0; while (i < e) { v = v * base; ++i; } return v; }
-static Opd pick_small(int fixed, unsigned bits, int fixed_mag) {    // integer-valued operand of any kind, |value| < 2^bits
-    Opd o;
-    o.k = pick_kind(fixed);
-    u64 mag = vf_u64();
-    if (bits < 64) mag &= ((1ULL << bits) - 1ULL);
-    if (fixed_mag >= 0) mag = (u64)fixed_mag;
-    bool neg = vf_u8() & 1;
-    if (o.k == K_NAT) o.b = mag;
-    else if (o.k == K_INT) o.b = neg ? (u64)(-(i64)mag) : mag;
+static u64 ref_pow(u64 base, unsigned e) { u64 v = 1; unsigned i = 0; while (i < e) { v = v * base; ++i; } return v; }
+static Opd pick_integral(int spec, u64 mask, bool fixed, i64 fixed_val) {   // integral value of any kind; reals are exact integers
+    Opd o; o.k = pick_kind(spec);
+    u64 mag = vf_u64(); bool neg = vf_u8() & 1;
+    mag &= mask;
+    if (fixed) { neg = fixed_val < 0; mag = neg ? (u64)(0 - fixed_val) : (u64)fixed_val; }
+    if (o.k == K_NAT) { vf_assume(!neg); o.b = mag; }
+    else if (o.k == K_INT) { vf_assume(mag <= (u64)I64_MAX); o.b = neg ? (0ULL - mag) : mag; }
     else { vf_assume(mag < (1ULL << 53)); double d = (double)mag; o.b = d2b(neg ? -d : d); }
     return o;
 }
 extern "C" void h_pow() {
-    Opd a = pick_small(LK, PB, -1); Opd b = pick_small(RK, 6, PE_FIX);
-    i128 x = (a.k == K_REAL) ? (i128)(i64)b2d(a.b) : ival(a.k, a.b);
-    i128 y = (b.k == K_REAL) ? (i128)(i64)b2d(b.b) : ival(b.k, b.b);
-    vf_assume(y >= -(i128)PE_MAX && y <= (i128)PE_MAX);
-    bool neg_even = (x < 0 && y < 0 && (((u64)y) & 1ULL) == 0);
+    Opd a = pick_integral(LK, PB_MASK, false, 0); Opd b = pick_integral(RK, 0xFFu, true, PE);
+    bool xneg = (a.k == K_INT) ? ((i64)a.b < 0) : ((a.k == K_REAL) ? (b2d(a.b) < 0.0) : false);
+    u64  mx = (a.k == K_NAT) ? a.b : ((a.k == K_INT) ? (xneg ? (0ULL - a.b) : a.b) : (u64)(xneg ? -b2d(a.b) : b2d(a.b)));
+    const unsigned e = (PE < 0) ? unsigned(-(PE)) : unsigned(PE);
+    bool neg_even = xneg && (PE < 0) && ((e & 1u) == 0);
 #ifdef KF_EXCL_C04_pow_neg_even_sign
     vf_assume(!neg_even);
 #endif
 #ifdef KF_ONLY_C04_pow_neg_even_sign
     vf_assume(neg_even);
 #endif
-    vf_assume(!(x == 0 && y <= 0));                       // 0^0 and 0^-n: see open questions (engine: 0)
+    if (PE <= 0) vf_assume(mx != 0);                      // 0^0 and 0^-n: see open questions (engine: 0)
     QE l, r; mk(l, a.k, a.b); mk(r, b.k, b.b);
     TC tc{nullptr, 0};
     bool ok = tc.evaluateExpression(l, r, OP::Exponent);
     vf_assert(ok, 1);
-    i64 ys = (i64)y;
-    unsigned e = (ys < 0) ? (unsigned)(0 - ys) : (unsigned)ys;
-    i128 p = ref_pow(x, e);
-    if (y >= 0) {
-        // any faithful integer representation of the exact value is accepted (kind after ^ is not documented)
-        if (l.Type == ET::NaturalNumber) { vf_assume(fits_u64(p)); vf_assert(l.Value.Number.Natural == (u64)p, 2); }
-        else { vf_assume(fits_i64(p)); vf_assert(l.Type == ET::IntegerNumber && l.Value.Number.Integer == (i64)p, 3); }
+    u64  pm  = ref_pow(mx, e);
+    bool neg = xneg && ((e & 1u) == 1u);
+    if (PE >= 0) {
+        // any faithful integer representation is accepted (the kind after ^ is not documented)
+        if (l.Type == ET::NaturalNumber) vf_assert(!neg && l.Value.Number.Natural == pm, 2);
+        else vf_assert(l.Type == ET::IntegerNumber && l.Value.Number.Natural == (neg ? (0ULL - pm) : pm) && (neg || pm <= (u64)I64_MAX), 3);
     } else {
-        vf_assume(p > -((i128)1 << 53) && p < ((i128)1 << 53));   // 1/p with p exactly representable
-        double want = 1.0 / (double)(i64)p;
-        vf_assert(l.Type == ET::RealNumber && same_real(l.Value.Number.Real, want), 4);
+        vf_assume(pm < (1ULL << 53));                     // the reciprocal of an exactly representable integer
+        double want = 1.0 / (double)pm;
+        vf_assert(l.Type == ET::RealNumber && same_real(l.Value.Number.Real, neg ? -want : want), 4);
     }
     vf_witness();
 }
